@@ -121,6 +121,7 @@ type ObligResult struct {
 	Desc          string            `json:"desc"`
 	Assumes       []string          `json:"assumes,omitempty"`
 	NativeReplays int               `json:"native_replays"`
+	Validated     int               `json:"vectors_validated"`
 }
 
 var (
@@ -426,6 +427,12 @@ func runOblig(o *Oblig, tier string) *ObligResult {
 	ex := symgo.NewExplorer(solver, lim)
 	ex.Oblig = o.ID
 	ex.Params = tc.Params
+	if o.Native && os.Getenv("VERIF_NO_VALIDATE") == "" {
+		ex.MaxVectors = 6
+		if tier == "thorough" {
+			ex.MaxVectors = 24
+		}
+	}
 	if o.Alt != "" {
 		alt, err := symgo.NewSolver(o.Alt, tc.QueryMs)
 		if err == nil {
@@ -497,6 +504,14 @@ func runOblig(o *Oblig, tier string) *ObligResult {
 			}
 		}
 		newViol++
+	}
+	// translator validation: the same concrete vectors through the engine and natively
+	if len(ex.PathVectors) > 0 && newViol == 0 {
+		n, mism := validateVectors(o, prog, solver, lim, tc, ex.PathVectors)
+		res.Validated = n
+		for _, m := range mism {
+			res.Inconclusive = append(res.Inconclusive, "engine mismatch (translator validation): "+m)
+		}
 	}
 	if o.Expect == "reach" {
 		// vacuity twin: the final assert(false) must be reachable
@@ -585,6 +600,77 @@ func nativeReplay(o *Oblig, replayPath string, deadlock bool) (bool, string) {
 	outp, _ := cmd.CombinedOutput()
 	s := string(outp)
 	return strings.Contains(s, "VERIF-NATIVE-VIOLATION") || (strings.Contains(s, "panic:") && strings.Contains(s, "FAIL")), s
+}
+
+// validateVectors runs concrete input vectors (taken from the models of explored paths) both
+// through symgo in concrete mode and natively (go test -overlay) and compares the outcome
+// (violated or not) and the observation log.
+func validateVectors(o *Oblig, prog *symgo.Program, solver *symgo.Solver, lim symgo.Limits, tc TierCfg, vecs []symgo.PathVector) (int, []string) {
+	type nv struct {
+		Inputs map[string]uint64            `json:"inputs"`
+		UF     map[string]map[string]uint64 `json:"uf"`
+		Params map[string]int               `json:"params"`
+	}
+	var list []nv
+	engViol := make([]bool, len(vecs))
+	engObs := make([]string, len(vecs))
+	for i, v := range vecs {
+		list = append(list, nv{v.Inputs, v.UF, tc.Params})
+		ex2 := symgo.NewExplorer(solver, lim)
+		ex2.Oblig = o.ID
+		ex2.Params = tc.Params
+		prog.ReplayConcrete(o.Entry, ex2, v.Inputs, v.UF)
+		engViol[i] = len(ex2.Viols) > 0
+		engObs[i] = strings.Join(ex2.ObsLog(), "|")
+	}
+	tmp, err := os.MkdirTemp("", "vcheck-vec-")
+	if err != nil {
+		return 0, []string{err.Error()}
+	}
+	defer os.RemoveAll(tmp)
+	vb, _ := json.Marshal(list)
+	vp := filepath.Join(tmp, "vectors.json")
+	os.WriteFile(vp, vb, 0o644)
+	ov, _ := buildOverlay(o, true)
+	repl := map[string]string{}
+	n := 0
+	for virt, content := range ov {
+		n++
+		real := filepath.Join(tmp, fmt.Sprintf("f%d_%s", n, filepath.Base(virt)))
+		os.WriteFile(real, content, 0o644)
+		repl[virt] = real
+	}
+	ovj, _ := json.Marshal(map[string]interface{}{"Replace": repl})
+	ovp := filepath.Join(tmp, "overlay.json")
+	os.WriteFile(ovp, ovj, 0o644)
+	cmd := exec.Command("go", "test", "-tags=verif", "-vet=off", "-count=1", "-run", "^TestVerifVectors$", "-overlay", ovp, "-timeout", "300s", "-v", pkgPathOf(o))
+	cmd.Dir = repoDir
+	cmd.Env = append(os.Environ(), "GOFLAGS=-mod=mod", "GOPROXY=off", "GOSUMDB=off", "GOTOOLCHAIN=local", "VERIF_VECTORS="+vp)
+	outp, _ := cmd.CombinedOutput()
+	var mism []string
+	seen := 0
+	for _, line := range strings.Split(string(outp), "\n") {
+		ix := strings.Index(line, "VERIF-VEC ")
+		if ix < 0 {
+			continue
+		}
+		var i int
+		var viol bool
+		var obs, msg string
+		if _, err := fmt.Sscanf(line[ix:], "VERIF-VEC %d violated=%t obs=%q msg=%q", &i, &viol, &obs, &msg); err != nil || i >= len(vecs) {
+			continue
+		}
+		seen++
+		if viol != engViol[i] {
+			mism = append(mism, fmt.Sprintf("vector %d: native violated=%v (%s), engine violated=%v", i, viol, msg, engViol[i]))
+		} else if !o.Sched && obs != engObs[i] {
+			mism = append(mism, fmt.Sprintf("vector %d: observation logs differ: native %q engine %q", i, obs, engObs[i]))
+		}
+	}
+	if seen == 0 {
+		mism = append(mism, "native vector run produced no result: "+lastLines(string(outp), 8))
+	}
+	return seen, mism
 }
 
 func cmdReplay(args []string) {
@@ -742,7 +828,7 @@ func cmdRun(args []string) {
 		nunsat += r.Unsat
 		nunk += r.Unknown
 		solverS += r.SolverS + r.AltSolverS
-		validated += r.NativeReplays
+		validated += r.NativeReplays + r.Validated
 		for _, f := range r.Funcs {
 			funcs[f] = true
 		}
